@@ -263,6 +263,24 @@ def junctionCases (count : Nat) : G (List String) := do
         out := s!"P {o} a:{hex (all.take sp).toArray};n;a:{hex (all.drop sp).toArray};n;n" :: out
   pure out.reverse
 
+/-- intra pictures of one decoder whose sizes have the same number of luma samples but another shape (32x16, 16x32, 16x32; 45x5,
+15x15, 15x15; ...): the planes of each picture must have the sizes of ITS header, whatever buffers an earlier picture left -/
+def shapeSwitchCases : G (List String) := do
+  let mut out : List String := []
+  for sizes in [[(32, 16), (16, 32), (16, 32)], [(45, 5), (15, 15), (15, 15)], [(48, 16), (16, 48), (24, 32), (32, 24), (32, 24)],
+                [(17, 3), (3, 17), (3, 17)], [(16, 32), (32, 16), (32, 16), (16, 32)], [(15, 15), (45, 5), (5, 45), (5, 45)],
+                [(64, 16), (32, 32), (32, 32), (16, 64), (16, 64)]] do
+    for fl in [0, 1] do
+      let mut ops : List String := []
+      let mut k := 0
+      for d in sizes do
+        let pt ← pick [0, 0, 0]
+        let p ← genPic { flavour := fl } pt d (7 + k) true
+        ops := s!"d:{hexOf p}" :: ops
+        k := k + 1
+      out := ("P 1 " ++ ";".intercalate ops.reverse) :: out
+  pure out.reverse
+
 /-- hand-built stress streams for C01: zero sizes, 11-bit levels at high quantizers, more macroblock data than the picture
 holds, a reference of another size -/
 def stressCases : G (List String) := do
@@ -415,6 +433,7 @@ def runGen (kind : String) (seed count : Nat) : List String :=
   if kind == "stress" then (stressCases.run (seed * 2654435761 + 7)).1 else
   if kind == "esclevels" then escLevelCases else
   if kind == "bigconcat" then ((bigConcatCases count).run (seed * 2654435761 + 77)).1 else
+  if kind == "shapeswitch" then (shapeSwitchCases.run (seed * 2654435761 + 34)).1 else
   if kind == "junction" then ((junctionCases count).run (seed * 2654435761 + 33)).1 else
   if kind == "edgeconcat" then ((edgeConcatCases count).run (seed * 2654435761 + 32)).1 else
   if kind == "edgesizes" then ((edgeSizeCases false count).run (seed * 2654435761 + 31)).1 else
